@@ -33,6 +33,8 @@ package main
 //	shots=<InstanceID:number of Shoot calls of the gun bound with it,...> (by id) rpstot=<tokens of a drained copy of the RPS profile, -1 = not
 //	countable (an unlimited part)> rpsmin=<ns, see rpsMin> rpsspans=<first Next call:first "finished" answer,... of every RPS schedule object
 //	that has reported its end> mfin=<Metrics.InstanceFinish, as mstart: of the engine minus the closed guns of the other pools> (cut `fail` = an instance could not be created or the provider / aggregator failed; cut `panic` = a gun panicked)
+//	rpsgiven=<tokens handed out (successful Next calls, counted at the end of the run) by every RPS schedule object that has reported
+//	its end, in the order of rpsspans>
 
 import (
 	"context"
@@ -110,6 +112,7 @@ type rpsSched struct {
 	mu    sync.Mutex
 	first int64 // -1: Next not called yet
 	fin   int64 // -1: not finished yet
+	given int64 // tokens handed out by this object (successful Next calls)
 }
 
 func (s *rpsSched) finished() {
@@ -132,6 +135,10 @@ func (s *rpsSched) Next() (time.Time, bool) {
 	ts, ok := s.Schedule.Next()
 	if !ok {
 		s.finished()
+	} else {
+		s.mu.Lock()
+		s.given++
+		s.mu.Unlock()
 	}
 	return ts, ok
 }
@@ -728,7 +735,7 @@ func (pc *poolCase) observation(logs *observer.ObservedLogs, e string, end int64
 	for _, id := range ids {
 		shots = append(shots, fmt.Sprintf("%d:%d", id, r.shots[id]))
 	}
-	var spans []string
+	var spans, given []string
 	pc.rpsMu.Lock()
 	for _, rs := range pc.rpss {
 		rs.mu.Lock()
@@ -738,14 +745,15 @@ func (pc *poolCase) observation(logs *observer.ObservedLogs, e string, end int64
 				first = rs.fin // "finished" before the first token was asked for
 			}
 			spans = append(spans, fmt.Sprintf("%d:%d", first, rs.fin))
+			given = append(given, strconv.FormatInt(rs.given, 10))
 		}
 		rs.mu.Unlock()
 	}
 	pc.rpsMu.Unlock()
-	return fmt.Sprintf("k=%d err=%s end=%d mstart=%d fails=%d total=%d started=%d starterr=%s running=%d ids=%s toks=%s picks=%s ctoks=%s guns=%s binds=%s exits=%s cuts=%s jitter=%d lastshot=%d gunctx=%d allawaited=%d shots=%s rpstot=%d rpsmin=%d rpsspans=%s mfin=%d",
+	return fmt.Sprintf("k=%d err=%s end=%d mstart=%d fails=%d total=%d started=%d starterr=%s running=%d ids=%s toks=%s picks=%s ctoks=%s guns=%s binds=%s exits=%s cuts=%s jitter=%d lastshot=%d gunctx=%d allawaited=%d shots=%s rpstot=%d rpsmin=%d rpsspans=%s mfin=%d rpsgiven=%s",
 		len(r.binds), e, end, int64(len(r.binds))+extraStarts, r.fails, len(pc.ctoks), started, starterr, len(r.binds)-len(r.exits), joinInts(ids),
 		joinInts(r.toks), joinInts(r.picks), joinInts(pc.ctoks), joinInts(r.guns), strings.Join(binds, ","), strings.Join(exits, ","), strings.Join(cuts, ","), jitter,
-		r.lastShot, r.gunCtx, allAwaited, strings.Join(shots, ","), pc.rpsTot, rpsMin(pc.m["rps"]), strings.Join(spans, ","), int64(len(r.exits))+extraFinishes)
+		r.lastShot, r.gunCtx, allAwaited, strings.Join(shots, ","), pc.rpsTot, rpsMin(pc.m["rps"]), strings.Join(spans, ","), int64(len(r.exits))+extraFinishes, strings.Join(given, ","))
 }
 
 // startup profiles with every token at a multiple of 1 s (so that causes can be placed 500 ms away from every token)
@@ -899,6 +907,52 @@ func genRps(r *rand.Rand, durMs int) string {
 	}
 }
 
+// genRpsUnknown: a composite RPS profile with a part of UNKNOWN length (unlimited) that is not at the head: in front of it
+// one to three parts with no, one, two or a few tokens (pauses, once, short const parts, an empty once), possibly more parts after
+// it, possibly nested.  Left() of such a profile is "unknown" (-1) until the unlimited part is over — never 0 before.
+func genRpsUnknown(r *rand.Rand) string {
+	small := func() string {
+		switch r.Intn(8) {
+		case 0:
+			return fmt.Sprintf("const:0:%d", 100*(1+r.Intn(4)))
+		case 1, 2:
+			return "once:1"
+		case 3:
+			return "once:2"
+		case 4:
+			return "const:10:100" // one token
+		case 5:
+			return "const:10:200" // two tokens
+		case 6:
+			return "once:0"
+		default:
+			return fmt.Sprintf("const:20:%d", 100*(1+r.Intn(3)))
+		}
+	}
+	var ps []string
+	for i, n := 0, 1+r.Intn(3); i < n; i++ {
+		ps = append(ps, small())
+	}
+	ps = append(ps, fmt.Sprintf("unlim:%d", 100*(3+r.Intn(6))))
+	switch r.Intn(4) {
+	case 0:
+		ps = append(ps, fmt.Sprintf("once:%d", 1+r.Intn(3)))
+	case 1:
+		ps = append(ps, small(), fmt.Sprintf("unlim:%d", 100*(2+r.Intn(3))))
+	case 2:
+		ps = append(ps, fmt.Sprintf("const:0:%d", 100*(1+r.Intn(3))), "once:1")
+	}
+	return nest(r, strings.Join(ps, "+"), r.Intn(3))
+}
+
+// withUnknownRps: a pool whose RPS profile (shared or per instance) has an unlimited part behind other parts, under a startup
+// profile that still has tokens to come when the first instance consults the RPS profile
+func withUnknownRps(r *rand.Rand) string {
+	su := []string{"step:1:3:1:300", "const:2:1000", "once:1+const:0:400+once:2", "step:0:2:1:400", "const:0:200+once:2", "once:2+const:1:1000", "[once:1+const:0:300]+step:1:2:1:300"}[r.Intn(7)]
+	return fmt.Sprintf("startup=%s rps=%s%s ammo=%d resp=%d%s", su, genRpsUnknown(r), []string{"", "", " perinst=1"}[r.Intn(3)],
+		[]int{0, 0, 0, 30 + r.Intn(100)}[r.Intn(4)], 5+5*r.Intn(3), []string{"", "", " prov=mem"}[r.Intn(3)])
+}
+
 var gridProfiles = []string{
 	"once:1", "once:3", "const:1:3000", "step:0:4:2:1000", "step:1:3:1:1000", "step:2:7:3:1000",
 	"once:2+const:0:1000+once:2", "once:1+const:0:2000+once:1+const:0:1000+once:2", "step:1:2:1:1000+const:1:2000",
@@ -1018,9 +1072,20 @@ func gen(r *rand.Rand, tier string) []string {
 		"startup=constm:2500:1000+constm:625:3250 rps=const:10:5000 ammo=0 resp=0",
 		"startup=constm:500:1000+once:1 rps=const:10:2000 ammo=0 resp=0",
 	)
-	n, nfree, npools := 14, 6, 2
+	out = append(out,
+		// round 4 — RPS profiles with a part of unknown length (unlimited) BEHIND other parts, the startup profile still releasing
+		// tokens when the first instance asks the RPS profile whether it is finished: a pause / a single probe shot / two shots /
+		// a short const part / an empty part first; nested; per instance; more parts behind the unlimited one
+		"startup=step:1:3:1:400 rps=const:0:300+once:1+unlim:900 ammo=0 resp=10",
+		"startup=const:2:1000 rps=const:10:500+once:1+unlim:600 ammo=0 resp=10",
+		"startup=step:1:3:1:300 rps=once:1+once:1+unlim:800+once:2 ammo=0 resp=10",
+		"startup=once:1+const:0:500+once:2 rps=[const:0:200+once:2]+[once:0+once:1+[unlim:700]] ammo=0 resp=5",
+		"startup=step:1:2:1:400 rps=const:0:200+const:10:100+unlim:500 perinst=1 ammo=0 resp=10",
+		"startup=const:2:1000 rps=once:1+[const:0:300+unlim:400]+const:0:200+once:1 ammo=0 resp=10 prov=mem",
+	)
+	n, nfree, npools, nunk := 14, 6, 2, 4
 	if tier == "thorough" {
-		n, nfree, npools = 1000, 800, 150
+		n, nfree, npools, nunk = 1000, 800, 150, 150
 		// exhaustive small grid: every profile shape x every cause x every position of the cause
 		for _, su := range gridProfiles {
 			out = append(out, withCause(r, su, 0, 0), withCause(r, su, 5, 0))
@@ -1053,6 +1118,9 @@ func gen(r *rand.Rand, tier string) []string {
 	}
 	for i := 0; i < nfree; i++ {
 		out = append(out, withCause(r, genStartupFree(r), r.Intn(nCauses), 100*(1+r.Intn(40))))
+	}
+	for i := 0; i < nunk; i++ {
+		out = append(out, withUnknownRps(r))
 	}
 	return out
 }
